@@ -399,76 +399,7 @@ func runC09(c *Ctx) {
 	}
 
 	// ---------- O-6 no shared mutable state ----------
-	rule6 := "O-6 the codec keeps no shared mutable state"
-	bad := 0
-	isPkgGlobal := func(v ssa.Value) bool {
-		g, ok := v.(*ssa.Global)
-		return ok && g.Pkg != nil && p.pkgRel[g.Pkg] == "common/encapsulation"
-	}
-	// memory derivation (not value taint): follow only address-forming operations
-	var isGlobal func(v ssa.Value) bool
-	seenG := map[ssa.Value]bool{}
-	isGlobal = func(v ssa.Value) bool {
-		if v == nil || seenG[v] {
-			return false
-		}
-		seenG[v] = true
-		defer delete(seenG, v)
-		switch x := v.(type) {
-		case *ssa.Global:
-			return isPkgGlobal(x)
-		case *ssa.IndexAddr:
-			return isGlobal(x.X)
-		case *ssa.FieldAddr:
-			return isGlobal(x.X)
-		case *ssa.Slice:
-			return isGlobal(x.X)
-		case *ssa.UnOp:
-			if x.Op == token.MUL {
-				return isPkgGlobal(x.X) // slice header loaded from a package-level variable
-			}
-		case *ssa.Phi:
-			for _, e := range x.Edges {
-				if isGlobal(e) {
-					return true
-				}
-			}
-		case *ssa.Call:
-			if calleeName(x) == "builtin.append" {
-				return isGlobal(x.Call.Args[0])
-			}
-		case *ssa.ChangeType:
-			return isGlobal(x.X)
-		case *ssa.Convert:
-			return isGlobal(x.X)
-		}
-		return false
-	}
-	for _, fn := range enc {
-		if fn.Name() == "init" {
-			continue
-		}
-		for _, r := range returnsOf(fn) {
-			for _, res := range r.Results {
-				if _, isSlice := res.Type().Underlying().(*types.Slice); !isSlice {
-					continue
-				}
-				if isGlobal(res) {
-					bad++
-					c.viol(rule6, p.FnName(fn)+" returns memory of a package-level variable", p.instrPos(r), "the returned slice aliases package-level scratch space: concurrent calls on unrelated streams overwrite each other's bytes between computing and writing them")
-				}
-			}
-		}
-		allInstrs(fn, func(in ssa.Instruction) {
-			if st, ok := in.(*ssa.Store); ok && isGlobal(st.Addr) {
-				bad++
-				c.viol(rule6, p.FnName(fn)+" writes a package-level variable", p.instrPos(in), "the codec mutates package-level state while encoding/decoding")
-			}
-		})
-	}
-	if bad == 0 {
-		c.ok(rule6, "no encapsulation function returns or writes package-level memory", "-", fmt.Sprintf("%d functions", len(enc)))
-	}
+	c.checkNoSharedState("O-6 the codec keeps no shared mutable state", "common/encapsulation", enc)
 }
 
 func globalOf(p *Prog, pkgPath, name string) *ssa.Global {
@@ -705,4 +636,84 @@ func (c *Ctx) checkPrefixTables(rd *ssa.Function) {
 	}
 	c.check(nStore == 1 && size > 0 && size <= 8193, rule3, "padding chunks never need a 3-byte prefix (paddingBuffer <= 8193 bytes, assigned once)", p.Pos(pb.Pos()), fmt.Sprintf("len %d", size),
 		fmt.Sprintf("paddingBuffer has %d bytes / %d assignments: WritePadding's 3-byte prefix branch becomes live and writes a 0x3f-masked continuation byte the decoder reads with 0x7f", size, nStore))
+}
+
+// checkNoSharedState: no function of the package returns, stores to, or
+// appends/copies into memory of a package-level variable (init excepted).
+func (c *Ctx) checkNoSharedState(rule6, rel string, fns []*ssa.Function) {
+	p := c.P
+	bad := 0
+	isPkgGlobal := func(v ssa.Value) bool {
+		g, ok := v.(*ssa.Global)
+		return ok && g.Pkg != nil && p.pkgRel[g.Pkg] == rel
+	}
+	// memory derivation (not value taint): follow only address-forming operations
+	var isGlobal func(v ssa.Value) bool
+	seenG := map[ssa.Value]bool{}
+	isGlobal = func(v ssa.Value) bool {
+		if v == nil || seenG[v] {
+			return false
+		}
+		seenG[v] = true
+		defer delete(seenG, v)
+		switch x := v.(type) {
+		case *ssa.Global:
+			return isPkgGlobal(x)
+		case *ssa.IndexAddr:
+			return isGlobal(x.X)
+		case *ssa.FieldAddr:
+			return isGlobal(x.X)
+		case *ssa.Slice:
+			return isGlobal(x.X)
+		case *ssa.UnOp:
+			if x.Op == token.MUL {
+				return isPkgGlobal(x.X) // slice header loaded from a package-level variable
+			}
+		case *ssa.Phi:
+			for _, e := range x.Edges {
+				if isGlobal(e) {
+					return true
+				}
+			}
+		case *ssa.Call:
+			if calleeName(x) == "builtin.append" {
+				return isGlobal(x.Call.Args[0])
+			}
+		case *ssa.ChangeType:
+			return isGlobal(x.X)
+		case *ssa.Convert:
+			return isGlobal(x.X)
+		}
+		return false
+	}
+	for _, fn := range fns {
+		if fn.Name() == "init" {
+			continue
+		}
+		for _, r := range returnsOf(fn) {
+			for _, res := range r.Results {
+				if _, isSlice := res.Type().Underlying().(*types.Slice); !isSlice {
+					continue
+				}
+				if isGlobal(res) {
+					bad++
+					c.viol(rule6, p.FnName(fn)+" returns memory of a package-level variable", p.instrPos(r), "the returned slice aliases package-level scratch space: concurrent calls on unrelated streams overwrite each other's bytes between computing and writing them")
+				}
+			}
+		}
+		allInstrs(fn, func(in ssa.Instruction) {
+			if st, ok := in.(*ssa.Store); ok && isGlobal(st.Addr) {
+				bad++
+				c.viol(rule6, p.FnName(fn)+" writes a package-level variable", p.instrPos(in), "the codec mutates package-level state while encoding/decoding")
+			}
+			// append/copy into memory of a package-level variable writes it as well
+			if ci, ok := in.(*ssa.Call); ok && (calleeName(ci) == "builtin.append" || calleeName(ci) == "builtin.copy") && isGlobal(ci.Call.Args[0]) {
+				bad++
+				c.viol(rule6, p.FnName(fn)+" appends or copies into a package-level variable", p.instrPos(in), "package-level scratch space is filled while encoding/decoding: concurrent encoders or decoders overwrite each other's bytes")
+			}
+		})
+	}
+	if bad == 0 {
+		c.ok(rule6, "no function of "+rel+" returns or writes package-level memory", "-", fmt.Sprintf("%d functions", len(fns)))
+	}
 }
